@@ -55,6 +55,7 @@ use futures::task::{Poll, Context};
 use std::sync::*;
 #[cfg(feature = "verif-hooks")]
 use crate::verif::sync::*;
+use std::panic;
 use std::pin::{Pin};
 use std::collections::VecDeque;
 
@@ -155,7 +156,8 @@ where
             let old_poll_fn = arc_self.poll_fn.lock().unwrap().take();
             REFERENCE_CHUTE.desync(move |_| {
                 use std::mem;
-                mem::drop(old_poll_fn);
+                // (As in PipeStream::drop: a panic while disposing of one pipe's references must not break the disposal queue)
+                let _ = panic::catch_unwind(panic::AssertUnwindSafe(move || mem::drop(old_poll_fn)));
             });
         }
     }
@@ -483,7 +485,9 @@ impl<Item> Drop for PipeStream<Item> {
         // Run the drop function
         self.on_drop.take().map(|mut on_drop| {
             REFERENCE_CHUTE.desync(move |_| {
-                (on_drop)()
+                // This may release the last reference to a Desync that has panicked, and dropping one of those panics as well:
+                // that must stay with that object instead of taking down the queue all pipes dispose of their references on
+                let _ = panic::catch_unwind(panic::AssertUnwindSafe(move || (on_drop)()));
             })
         });
     }
